@@ -274,10 +274,10 @@ fn simpler_ops(op: &Op) -> Vec<Op> {
             push(Op::Disjoint { t, cs: cs[..cs.len() - 1].to_vec(), f });
             push(Op::Disjoint { t, cs: cs[1..].to_vec(), f });
         }
-        Op::Iter { t, kind, take, clone_at, .. } => {
-            push(Op::Iter { t, kind, take: take / 2, clone_at: None, dbg_at: None });
-            push(Op::Iter { t, kind, take, clone_at: None, dbg_at: None });
-            let _ = clone_at;
+        Op::Iter { t, kind, take, clone_at, fin, .. } => {
+            push(Op::Iter { t, kind, take: take / 2, clone_at: None, dbg_at: None, fin });
+            push(Op::Iter { t, kind, take, clone_at: None, dbg_at: None, fin });
+            push(Op::Iter { t, kind, take, clone_at, dbg_at: None, fin: 0 });
         }
         Op::Fill { t, set } => {
             push(if set { Op::SInsert { t, c: 0 } } else { Op::Insert { t, c: 0 } });
